@@ -178,6 +178,49 @@ fn structural_cases(text: &str, out: &mut Vec<Case>) {
         push("stray-end-tag", splice(text, *st, 0, "</zz>"), Expect::Reject);
         let _ = ns;
     }
+    // an end tag written with another prefix for the same namespace: the expanded names match,
+    // the names as written do not
+    {
+        let mut order: Vec<(usize, bool, usize)> = vec![]; // (position, is_start, index)
+        for (i, t) in sp.stags.iter().enumerate() {
+            if !t.empty {
+                order.push((t.start, true, i));
+            }
+        }
+        for (i, e) in sp.etags.iter().enumerate() {
+            order.push((e.0, false, i));
+        }
+        order.sort();
+        let mut stack: Vec<usize> = vec![];
+        let mut pairs: Vec<(usize, usize)> = vec![];
+        for (_, is_start, i) in order {
+            if is_start {
+                stack.push(i);
+            } else if let Some(si) = stack.pop() {
+                pairs.push((si, i));
+            }
+        }
+        if let Ok(evs) = xmlscan::scan(text) {
+            if let Ok(res) = xmlscan::resolve(&evs) {
+                if res.len() == sp.stags.len() {
+                    for (si, ei) in pairs {
+                        let uri = &res[si].uri;
+                        if uri.is_empty() {
+                            continue;
+                        }
+                        let t = &sp.stags[si];
+                        let e = &sp.etags[ei];
+                        // rewrite the end tag first (it lies behind the start tag)
+                        let s1 = splice(text, e.2 .0, e.2 .1 - e.2 .0, &format!("zs:{}", res[si].local));
+                        let mut esc = String::new();
+                        absdoc::esc_attr(uri, &mut esc);
+                        let s2 = splice(&s1, t.name.1, 0, &format!(" xmlns:zs=\"{}\"", esc));
+                        push("end-tag-with-synonymous-prefix", s2, Expect::Reject);
+                    }
+                }
+            }
+        }
+    }
     // swap two adjacent end tags with different names (mismatched nesting)
     for w in sp.etags.windows(2) {
         let (a, b) = (&w[0], &w[1]);
